@@ -100,7 +100,7 @@ func cloneChart(c *chart.Chart, dir string) (*chart.Chart, *chart.Chart) {
 func corrRender(seed uint64, n int, tier string, out string, replay string) {
 	m := StartModel()
 	defer m.Close()
-	rep := NewReport("C05", "render", seed, "case = generated chart (1-5 templates per chart using values, ranges over maps, include, tpl, toYaml, Files.Get/Glob/Lines, hooks, NOTES, up to two levels of subcharts) rendered 4 times sequentially, 4 times concurrently, under a changed environment and working directory, and from archive- and directory-loaded copies: manifests, hooks and notes must be byte-identical; the parse order of templates is tied to the model through duplicate `define`s (the last parsed wins); probes: env/expandenv undefined, getHostByName stubbed (plain and cluster-aware engines), Files cannot leave the chart; separate streams reproduce the known order dependences (sub-notes, AsConfig with duplicate base names) and the schema $ref to a host file; non-trivial = at least 2 templates; distinct = hash of chart")
+	rep := NewReport("C05", "render", seed, "case = generated chart (1-5 templates per chart using values, ranges over maps, include, tpl, toYaml, Files.Get/Glob/Lines, hooks, NOTES, up to two levels of subcharts) rendered 4 times sequentially, 4 times concurrently, under a changed environment and working directory, and from archive- and directory-loaded copies: manifests, hooks and notes must be byte-identical; the parse order of templates is tied to the model through duplicate `define`s (the last parsed wins); probes: a values-mutating template rendered three times from one loaded chart (identical output, stored defaults untouched), env/expandenv undefined, getHostByName stubbed (plain and cluster-aware engines), Files cannot leave the chart; separate streams reproduce the known order dependences (sub-notes, AsConfig with duplicate base names) and the schema $ref to a host file; non-trivial = at least 2 templates; distinct = hash of chart")
 	tmp, _ := os.MkdirTemp("", "corr-render")
 	defer os.RemoveAll(tmp)
 	cwd, _ := os.Getwd()
@@ -292,6 +292,42 @@ func renderProbes(rep *Report, seed uint64) {
 	rep.H("probe:dns")
 	if err != nil || strings.TrimSpace(out) != `v: ""` {
 		rep.Issue(Issue{Kind: "monitor", Fingerprint: "C05:dns-reachable", What: "getHostByName resolves although EnableDNS is off", Impl: out + fmt.Sprint(err), Seed: seed})
+	}
+	// repetition: a template that writes into a nested table of .Values (set / unset / merge do that) must not change
+	// what the next render of the same loaded chart sees, nor the chart's stored defaults -- with and without user
+	// values, with and without a subchart
+	for _, withSub := range []bool{false, true} {
+		for _, user := range []map[string]any{{}, {"other": 1.0}} {
+			c := &chart.Chart{Metadata: &chart.Metadata{APIVersion: "v2", Name: "p", Version: "0.1.0"},
+				Values:    map[string]any{"m": map[string]any{"k": "v", "n": map[string]any{"d": "e"}}, "l": []any{"a"}},
+				Templates: []*chart.File{{Name: "templates/x.yaml", Data: []byte(`{{ $_ := set .Values.m "k" (printf "%s-x" .Values.m.k) }}{{ $_ := set .Values.m.n "new" "1" }}{{ $_ := unset .Values.m.n "d" }}v: {{ .Values.m.k }} {{ toJson .Values.m.n }}`)}}}
+			if withSub {
+				c.AddDependency(&chart.Chart{Metadata: &chart.Metadata{APIVersion: "v2", Name: "sub", Version: "0.1.0"}, Values: map[string]any{"s": map[string]any{"t": "u"}},
+					Templates: []*chart.File{{Name: "templates/y.yaml", Data: []byte(`{{ $_ := set .Values.s "t" "changed" }}w: {{ .Values.s.t }}`)}}})
+			}
+			before := canon(chartValuesSnapshot(c))
+			var outs []string
+			for k := 0; k < 3; k++ {
+				vals, err := chartutil.ToRenderValues(c, deepCopyMap(user), chartutil.ReleaseOptions{Name: "r", Namespace: "n"}, nil)
+				if err != nil {
+					break
+				}
+				files, _ := engine.Render(c, vals)
+				outs = append(outs, canon(files))
+			}
+			rep.H("probe:repeat-mutating-template")
+			cs := map[string]any{"probe": "values-mutating template rendered three times", "subchart": withSub, "userValues": user}
+			rep.Count(cs, true)
+			for k := 1; k < len(outs); k++ {
+				if outs[k] != outs[0] {
+					rep.Issue(Issue{Kind: "monitor", Fingerprint: "C05:repeat-differs", What: fmt.Sprintf("render %d of the same loaded chart differs from render 1 (a template wrote into .Values)", k+1), Case: cs, Model: outs[0], Impl: outs[k], Seed: seed})
+					break
+				}
+			}
+			if after := canon(chartValuesSnapshot(c)); after != before {
+				rep.Issue(Issue{Kind: "monitor", Fingerprint: "C04:chart-defaults-mutated", What: "rendering changed the chart's stored default values", Case: cs, Model: before, Impl: after, Seed: seed})
+			}
+		}
 	}
 	// ... and through every way of making an engine that knows a cluster (the engines install/upgrade use when
 	// they may talk to the server): DNS stays off unless EnableDNS says otherwise
